@@ -13,7 +13,7 @@ import (
 )
 
 func init() {
-	register(&Rule{ID: "HELP-1", Props: []string{"C17", "C14", "C16"}, Floor: 6,
+	register(&Rule{ID: "HELP-1", Props: []string{"C17", "C14", "C16", "C07"}, Floor: 6,
 		Doc: "help rows: every declared argument, option and non-hidden command is visited; rows carry description, env list and default; all aliases; long description only on request; usage line = full path + trimmed spec + COMMAND marker iff sub-commands; children get the full parent path", Run: help1})
 	register(&Rule{ID: "HELP-2", Props: []string{"C17"}, Floor: 6,
 		Doc: "help helpers: default shown iff not hidden and non-empty; every env variable listed; first short and first long option name", Run: help2})
@@ -366,7 +366,7 @@ func help1(c *Ctx) {
 	// --- parents
 	if di := c.fnOpt("", "Cmd.doInit"); di != nil {
 		c.Mark(di)
-		ok := false
+		ok, skipped := false, false
 		r := di.Params[0]
 		ir.Instrs(di, func(in ssa.Instruction) {
 			st, isSt := in.(*ssa.Store)
@@ -388,11 +388,23 @@ func help1(c *Ctx) {
 				if pb, ok3 := fieldOf(base, "parents"); ok3 && pb == ssa.Value(r) {
 					if nb, ok4 := fieldOf(el, "name"); ok4 && nb == ssa.Value(r) {
 						ok = true
+						// on every successful initialisation: the loop is not stepped around
+						if h := rangeHeader(b.(*ssa.UnOp).X.(*ssa.IndexAddr).Index); h != nil {
+							for _, rp := range ir.ReturnPoints(di) {
+								if ir.IsNilConst(rp.Results[0]) && !h.Dominates(rp.At) {
+									skipped = true
+								}
+							}
+						}
 					}
 				}
 			}
 		})
-		c.Check(ok, Q(di)+":parents", di.Pos(), "every child gets parents = own parents + own name", "children do not receive the full parent path")
+		why := "children do not receive the full parent path"
+		if ok && skipped {
+			ok, why = false, "an initialisation can succeed without handing the children their parent path (sub-commands added or re-declared since keep a stale path)"
+		}
+		c.Check(ok, Q(di)+":parents", di.Pos(), "every child gets parents = own parents + own name, on every successful initialisation", why)
 	}
 }
 
